@@ -29,6 +29,7 @@ PROP = {
         {"name": "cmdargs", "quick": 1000000, "thorough": 10000000, "maxlen": 128},
         {"name": "argvc", "quick": 1200000, "thorough": 12000000, "maxlen": 160},
         {"name": "shell", "quick": 1200000, "thorough": 12000000, "maxlen": 128},
+        {"name": "shell_nested", "quick": 300000, "thorough": 3000000, "maxlen": 64},
         {"name": "creader", "quick": 600000, "thorough": 6000000, "maxlen": 160},
         {"name": "path", "quick": 1200000, "thorough": 12000000, "maxlen": 96},
         {"name": "text_long", "quick": 600000, "thorough": 6000000, "maxlen": 256},
